@@ -37,67 +37,69 @@ def nextIsOpenParen (cs : Text) : Bool :=
   | '(' :: _ => true
   | _ => false
 
-/-- One call of `Tokenizer::next` on the remaining characters `cs` at byte offset `pos`
-(whitespace already skipped, `cs` non-empty handled by the caller). Returns the token and the
-remaining characters. -/
+/-- `number_token` -/
+def lexNumber (c : Char) (cs : Text) (start : Nat) : Res (SpTok × Text) :=
+  match Dec.ofText (c :: (scanNumber c cs).1) with
+  | .ok d => .ok (⟨.num d, start, start + utf8Len (c :: (scanNumber c cs).1)⟩, (scanNumber c cs).2)
+  | .err e => .err e
+  | .unmodelled => .unmodelled
+  | _ => .err .invalidNumber
+
+/-- `string_token` -/
+def lexString (q : Char) (cs : Text) (start : Nat) : Res (SpTok × Text) :=
+  match scanString q cs with
+  | none => .err .unterminatedString
+  | some (payload, rest) => .ok (⟨.str payload, start, start + (utf8Len payload + 2)⟩, rest)
+
+/-- The identifier branch of `other_token`: boolean keyword, function name, or reference. -/
+def classifyAtom (atom rest : Text) : Tok :=
+  if atom == ['T', 'r', 'u', 'e'] || atom == ['t', 'r', 'u', 'e'] then .bool true
+  else if atom == ['F', 'a', 'l', 's', 'e'] || atom == ['f', 'a', 'l', 's', 'e'] then .bool false
+  else if nextIsOpenParen rest then .func atom
+  else .ref atom
+
+/-- `other_token`: a word operator if the maximal run up to whitespace / a delimiter is a registered
+operator; otherwise an identifier (first character plus `[0-9A-Za-z._]*`). -/
+def lexOther (regs : Regs) (c : Char) (cs : Text) (start : Nat) : SpTok × Text :=
+  if regs.isOp (c :: (span notWsDelim cs).1) then
+    (⟨.op (c :: (span notWsDelim cs).1), start, start + utf8Len (c :: (span notWsDelim cs).1)⟩, (span notWsDelim cs).2)
+  else
+    (⟨classifyAtom (c :: (span isParamCh cs).1) (span isParamCh cs).2, start, start + utf8Len (c :: (span isParamCh cs).1)⟩,
+      (span isParamCh cs).2)
+
+/-- One call of `Tokenizer::next` on the remaining characters `c :: cs` at byte offset `start`
+(whitespace already skipped). Returns the token and the remaining characters. -/
 def lexOne (regs : Regs) (c : Char) (cs : Text) (start : Nat) : Res (SpTok × Text) :=
   if isSpecialStart c then
-    let (o, rest) := extendOp regs.isOp [c] cs
-    .ok (⟨.op o, start, start + utf8Len o⟩, rest)
+    .ok (⟨.op (extendOp regs.isOp [c] cs).1, start, start + utf8Len (extendOp regs.isOp [c] cs).1⟩, (extendOp regs.isOp [c] cs).2)
   else match Delim.ofChar? c with
   | some d => .ok (⟨.delim d, start, start + 1⟩, cs)
   | none =>
-    if isAsciiDigit c then
-      let (run, rest) := scanNumber c cs
-      match Dec.ofText (c :: run) with
-      | .ok d => .ok (⟨.num d, start, start + utf8Len (c :: run)⟩, rest)
-      | .err e => .err e
-      | .unmodelled => .unmodelled
-      | _ => .err .invalidNumber
-    else if isQuote c then
-      match scanString c cs with
-      | none => .err .unterminatedString
-      | some (payload, rest) => .ok (⟨.str payload, start, start + (utf8Len payload + 2)⟩, rest)
+    if isAsciiDigit c then lexNumber c cs start
+    else if isQuote c then lexString c cs start
     else if c == ';' then .ok (⟨.semi, start, start + 1⟩, cs)
     else if c == ',' then .ok (⟨.comma, start, start + 1⟩, cs)
-    else
-      -- other_token
-      let (word, rest) := span notWsDelim cs
-      if regs.isOp (c :: word) then
-        .ok (⟨.op (c :: word), start, start + utf8Len (c :: word)⟩, rest)
-      else
-        let (tail, rest) := span isParamCh cs
-        let atom := c :: tail
-        let stop := start + utf8Len atom
-        if atom == ['T', 'r', 'u', 'e'] || atom == ['t', 'r', 'u', 'e'] then .ok (⟨.bool true, start, stop⟩, rest)
-        else if atom == ['F', 'a', 'l', 's', 'e'] || atom == ['f', 'a', 'l', 's', 'e'] then .ok (⟨.bool false, start, stop⟩, rest)
-        else if nextIsOpenParen rest then .ok (⟨.func atom, start, stop⟩, rest)
-        else .ok (⟨.ref atom, start, stop⟩, rest)
+    else .ok (lexOther regs c cs start)
 
 /-- Repeated `next()` until `EOF`. `fuel` bounds the number of tokens; `cs.length + 1` suffices
 (every token consumes at least one character — theorem `tokenize_total`). -/
 def lexAll (regs : Regs) : Nat → Text → Nat → Res (List SpTok)
   | 0, _, _ => .hang
   | fuel + 1, cs, pos =>
-    let (ws, rest) := span isWs cs
-    match rest with
+    match (span isWs cs).2 with
     | [] => .ok []
     | c :: cs' =>
-      let start := pos + utf8Len ws
-      match lexOne regs c cs' start with
-      | .ok (t, rest') =>
-        match lexAll regs fuel rest' t.stop with
-        | .ok ts => .ok (t :: ts)
-        | .err e => .err e
-        | .panic => .panic
-        | .deadlock => .deadlock
-        | .hang => .hang
-        | .unmodelled => .unmodelled
-      | .err e => .err e
-      | .panic => .panic
-      | .deadlock => .deadlock
-      | .hang => .hang
-      | .unmodelled => .unmodelled
+      (lexOne regs c cs' (pos + utf8Len (span isWs cs).1)).bind fun p =>
+      (lexAll regs fuel p.2 p.1.stop).bind fun ts => .ok (p.1 :: ts)
+
+theorem lexAll_zero (regs : Regs) (cs : Text) (pos : Nat) : lexAll regs 0 cs pos = .hang := rfl
+theorem lexAll_succ (regs : Regs) (fuel : Nat) (cs : Text) (pos : Nat) :
+    lexAll regs (fuel + 1) cs pos =
+      match (span isWs cs).2 with
+      | [] => .ok []
+      | c :: cs' =>
+        (lexOne regs c cs' (pos + utf8Len (span isWs cs).1)).bind fun p =>
+        (lexAll regs fuel p.2 p.1.stop).bind fun ts => .ok (p.1 :: ts) := rfl
 
 def tokenize (regs : Regs) (input : Text) : Res (List SpTok) :=
   lexAll regs (input.length + 1) input 0
